@@ -1,4 +1,4 @@
-(* Object-level model of labella/scale.py class LinearScale (305-380) as a
+(* Object-level model of labella/scale.py class LinearScale (305-385) as a
    heap machine.  The Python object has attributes _domain, _range (references
    to list objects), _clamp, and two closures _output/_input built by
    rescale() that CAPTURE the end points and the clamp flag at that moment
@@ -7,20 +7,25 @@
        { dom, rng : cell ids;  clamp;  cache = (a, b, r0, r1, clamp) }
    and scale(x)/invert(y) read ONLY the cache.
 
-   Cells are two-element lists (the property's domains [a,b] and ranges
-   [r0,r1]).  Domain cells and range cells live in two heaps:
-   - dheap: lists created by the scale code itself: `list(map(float, x))` in
-     domain(x) (scale.py:339-343), `list(self._domain)` in copy() (374-380),
-     the default [0, 1] of the constructor.  nice() (370-372) overwrites the
-     two entries of the scale's domain cell IN PLACE.
-   - rheap: range lists.  range(x) (345-349) stores the CALLER'S list object
-     itself, so several scales may hold the same range cell; copy() allocates
-     a fresh one (`list(self._range)`); nothing in the class writes into a
-     range list.
+   ONE heap of list cells (two-element lists: the property's domains [a,b]
+   and ranges [r0,r1]); a cell id is the list OBJECT.  Who allocates:
+   - the caller (OAlloc: a list literal),
+   - the default [0, 1] lists of the constructor (306-311),
+   - domain(x) (339-343): `list(map(float, x))`, a fresh list,
+   - nice(m) (373-375, repaired in /repo 41d590d): `d3_scale_linearNice(
+     list(self._domain), m)`, a FRESH list holding the nice end points,
+   - copy() (377-383, repaired in 0ea8365): `list(self._domain)`,
+     `list(self._range)`, two fresh lists.
+   Who merely STORES a given object: range(x) (345-349) and the constructor
+   with explicit lists.  The object may be any existing list: one the caller
+   built, or the very list another scale's domain()/range() getter returned
+   (the getters return the scale's own list objects, 339-341, 345-347), so
+   scales can share cells in every combination, domain cells included.
+   No operation of the class writes into an existing list any more; that is
+   what makes sharing harmless (ScaleStateProofs.ss_cells_immutable).
    Outside the model (and outside the property's quantifier, which lists
-   domain/range/clamp/nice/copy calls): the caller writing into a list it
-   handed over, handing the list returned by s.domain() to range(), or
-   passing a domain list to the constructor.
+   domain/range/clamp/nice/copy calls): the caller itself writing into a list
+   after handing it over.
    Model only: no proofs here. *)
 From Coq Require Import ZArith QArith List Bool.
 From Labella Require Import Scale.Linear Scale.Ticks Scale.Nice.
@@ -33,11 +38,12 @@ Record cache := mkCache { c_a : Q; c_b : Q; c_r0 : Q; c_r1 : Q; c_clamp : bool }
 
 Record scale := mkScale { dom : nat; rng : nat; clamp : bool; cached : cache }.
 
-Record state := mkState { dheap : list cell; rheap : list cell; scales : list scale }.
+Record state := mkState { heap : list cell; scales : list scale }.
 
-Definition init : state := mkState [] [] [].
+Definition init : state := mkState [] [].
 
-(* in-place update of one heap cell / one scale *)
+(* replace one entry of a list (used for the scale table only: no heap cell
+   is ever replaced) *)
 Fixpoint upd {A} (l : list A) (i : nat) (x : A) : list A :=
   match l, i with
   | [], _ => []
@@ -47,61 +53,85 @@ Fixpoint upd {A} (l : list A) (i : nat) (x : A) : list A :=
 
 (* rescale(), scale.py:319-331: rebuild both closures from the CURRENT contents
    of the cells the scale points to *)
-Definition rescale (dh rh : list cell) (s : scale) : scale :=
-  match nth_error dh (dom s), nth_error rh (rng s) with
+Definition rescale (h : list cell) (s : scale) : scale :=
+  match nth_error h (dom s), nth_error h (rng s) with
   | Some d, Some r =>
       mkScale (dom s) (rng s) (clamp s) (mkCache (fst d) (snd d) (fst r) (snd r) (clamp s))
   | _, _ => s   (* dangling cell: never happens (ss_invariant) *)
   end.
 
+Definition no_cache : cache := mkCache 0 0 0 0 false.
+
 Inductive op :=
-  | ONew                                  (* LinearScale(): fresh [0,1], [0,1] *)
-  | OAllocR (r : cell)                    (* the caller builds a list object   *)
-  | ODomain (s : nat) (d : cell)          (* s.domain([a, b])                  *)
-  | ORange (s : nat) (c : nat)            (* s.range(<caller's list c>)        *)
-  | OClamp (s : nat) (b : bool)           (* s.clamp(b)                        *)
-  | ONice (s : nat) (m : Z)               (* s.nice(m)                         *)
-  | OCopy (s : nat).                      (* s.copy()                          *)
+  | ONew                                  (* LinearScale(): fresh [0,1], [0,1]          *)
+  | ONewWith (d r : nat)                  (* LinearScale(<list d>, <list r>): stored as is *)
+  | OAlloc (c : cell)                     (* the caller builds a list object            *)
+  | ODomain (s : nat) (d : cell)          (* s.domain([a, b]): fresh list               *)
+  | ORange (s : nat) (c : nat)            (* s.range(<list c>): ANY existing list       *)
+  | ORangeOfDomain (s t : nat)            (* s.range(t.domain()): t's own domain list   *)
+  | ORangeOfRange (s t : nat)             (* s.range(t.range()):  t's own range list    *)
+  | OClamp (s : nat) (b : bool)           (* s.clamp(b)                                 *)
+  | ONice (s : nat) (m : Z)               (* s.nice(m): fresh list                      *)
+  | OCopy (s : nat).                      (* s.copy(): two fresh lists                  *)
+
+(* s.range(<cell c>) *)
+Definition set_range (st : state) (i c : nat) : state :=
+  match nth_error (scales st) i, nth_error (heap st) c with
+  | Some s, Some _ =>
+      let s' := mkScale (dom s) c (clamp s) (cached s) in
+      mkState (heap st) (upd (scales st) i (rescale (heap st) s'))
+  | _, _ => st
+  end.
 
 (* one operation; an operation naming a scale or cell that does not exist
    leaves the state unchanged *)
 Definition step (st : state) (o : op) : state :=
   match o with
   | ONew =>
-      let dh := dheap st ++ [(0, 1)] in
-      let rh := rheap st ++ [(0, 1)] in
-      let s0 := mkScale (length (dheap st)) (length (rheap st)) false (mkCache 0 0 0 0 false) in
-      mkState dh rh (scales st ++ [rescale dh rh s0])
-  | OAllocR r => mkState (dheap st) (rheap st ++ [r]) (scales st)
+      let h := heap st ++ [(0, 1); (0, 1)] in
+      let s0 := mkScale (length (heap st)) (S (length (heap st))) false no_cache in
+      mkState h (scales st ++ [rescale h s0])
+  | ONewWith d r =>
+      match nth_error (heap st) d, nth_error (heap st) r with
+      | Some _, Some _ =>
+          mkState (heap st) (scales st ++ [rescale (heap st) (mkScale d r false no_cache)])
+      | _, _ => st
+      end
+  | OAlloc c => mkState (heap st ++ [c]) (scales st)
   | ODomain i d =>
       match nth_error (scales st) i with
       | Some s =>
-          let dh := dheap st ++ [d] in
-          let s' := mkScale (length (dheap st)) (rng s) (clamp s) (cached s) in
-          mkState dh (rheap st) (upd (scales st) i (rescale dh (rheap st) s'))
+          let h := heap st ++ [d] in
+          let s' := mkScale (length (heap st)) (rng s) (clamp s) (cached s) in
+          mkState h (upd (scales st) i (rescale h s'))
       | None => st
       end
-  | ORange i c =>
-      match nth_error (scales st) i, nth_error (rheap st) c with
-      | Some s, Some _ =>
-          let s' := mkScale (dom s) c (clamp s) (cached s) in
-          mkState (dheap st) (rheap st) (upd (scales st) i (rescale (dheap st) (rheap st) s'))
-      | _, _ => st
+  | ORange i c => set_range st i c
+  | ORangeOfDomain i t =>
+      match nth_error (scales st) t with
+      | Some u => set_range st i (dom u)
+      | None => st
+      end
+  | ORangeOfRange i t =>
+      match nth_error (scales st) t with
+      | Some u => set_range st i (rng u)
+      | None => st
       end
   | OClamp i b =>
       match nth_error (scales st) i with
       | Some s =>
           let s' := mkScale (dom s) (rng s) b (cached s) in
-          mkState (dheap st) (rheap st) (upd (scales st) i (rescale (dheap st) (rheap st) s'))
+          mkState (heap st) (upd (scales st) i (rescale (heap st) s'))
       | None => st
       end
   | ONice i m =>
       match nth_error (scales st) i with
       | Some s =>
-          match nth_error (dheap st) (dom s) with
+          match nth_error (heap st) (dom s) with
           | Some d =>
-              let dh := upd (dheap st) (dom s) (nice m d) in      (* in place *)
-              mkState dh (rheap st) (upd (scales st) i (rescale dh (rheap st) s))
+              let h := heap st ++ [nice m d] in            (* a new list *)
+              let s' := mkScale (length (heap st)) (rng s) (clamp s) (cached s) in
+              mkState h (upd (scales st) i (rescale h s'))
           | None => st
           end
       | None => st
@@ -109,13 +139,11 @@ Definition step (st : state) (o : op) : state :=
   | OCopy i =>
       match nth_error (scales st) i with
       | Some s =>
-          match nth_error (dheap st) (dom s), nth_error (rheap st) (rng s) with
+          match nth_error (heap st) (dom s), nth_error (heap st) (rng s) with
           | Some d, Some r =>
-              let dh := dheap st ++ [d] in
-              let rh := rheap st ++ [r] in
-              let s0 := mkScale (length (dheap st)) (length (rheap st)) (clamp s)
-                                (mkCache 0 0 0 0 false) in
-              mkState dh rh (scales st ++ [rescale dh rh s0])
+              let h := heap st ++ [d; r] in
+              let s0 := mkScale (length (heap st)) (S (length (heap st))) (clamp s) no_cache in
+              mkState h (scales st ++ [rescale h s0])
           | _, _ => st
           end
       | None => st
@@ -127,8 +155,9 @@ Definition run (ops : list op) (st : state) : state := fold_left step ops st.
 (* the scale an operation writes to, if any *)
 Definition op_target (o : op) : option nat :=
   match o with
-  | ODomain i _ | ORange i _ | OClamp i _ | ONice i _ => Some i
-  | ONew | OAllocR _ | OCopy _ => None
+  | ODomain i _ | ORange i _ | ORangeOfDomain i _ | ORangeOfRange i _
+  | OClamp i _ | ONice i _ => Some i
+  | ONew | ONewWith _ _ | OAlloc _ | OCopy _ => None
   end.
 Definition touches (t : nat) (o : op) : bool :=
   match op_target o with Some i => Nat.eqb i t | None => false end.
@@ -151,18 +180,16 @@ Definition observe (st : state) (i : nat) (q : query) : answer :=
       match q with
       | QCall x => ANum (call_cache (cached s) x)        (* s(x): the closure *)
       | QInvert y => ANum (invert_cache (cached s) y)
-      | QDomain => match nth_error (dheap st) (dom s) with Some d => APair d | None => AInvalid end
-      | QRange => match nth_error (rheap st) (rng s) with Some r => APair r | None => AInvalid end
+      | QDomain => match nth_error (heap st) (dom s) with Some d => APair d | None => AInvalid end
+      | QRange => match nth_error (heap st) (rng s) with Some r => APair r | None => AInvalid end
       | QClamp => AFlag (clamp s)
       end
   end.
 
 (* ---------- specification predicates (used by the theorems) --------------- *)
 (* the cache of s holds exactly the end points of the cells s points to *)
-Definition wf_scale (dh rh : list cell) (s : scale) : Prop :=
-  exists d r, nth_error dh (dom s) = Some d /\ nth_error rh (rng s) = Some r /\
+Definition wf_scale (h : list cell) (s : scale) : Prop :=
+  exists d r, nth_error h (dom s) = Some d /\ nth_error h (rng s) = Some r /\
               cached s = mkCache (fst d) (snd d) (fst r) (snd r) (clamp s).
 
-Definition ss_inv (st : state) : Prop :=
-  Forall (wf_scale (dheap st) (rheap st)) (scales st) /\ NoDup (map dom (scales st)).
-
+Definition ss_inv (st : state) : Prop := Forall (wf_scale (heap st)) (scales st).
